@@ -17,12 +17,20 @@ package main
 //	                          a stopped cycle leaves the module closed)
 //	decoration                plain | snap (experimental.WithSnapshotter)
 //
+//	kind E-<how> (the call ENDS WITHOUT closing the module, other than by returning normally)
+//	                          how      unreachable | oob | divzero | hostpanic | swallowed | overflow
+//	                                   (swallowed: the host function calls back into the guest, the nested call traps,
+//	                                   the host swallows the error and the outer call returns normally)
+//	                          context  cancel-after | deadline-after | child-after   (cancelled / expired AFTER the call ended;
+//	                                   then the module must STAY open for the settle horizon histSettle)
+//
 // "…-before-next": the (parent) context of the step is cancelled right after its call returned;
 // "…-during-next": it is cancelled at the first tick of the next call. "child": the call gets
 // WithCancel(parent) and the parent is cancelled.
 
 import (
 	"context"
+	"errors"
 	"fmt"
 	"strings"
 	"time"
@@ -30,10 +38,31 @@ import (
 	"github.com/tetratelabs/wazero"
 	"github.com/tetratelabs/wazero/api"
 	"github.com/tetratelabs/wazero/experimental"
+	"github.com/tetratelabs/wazero/sys"
 	"github.com/tetratelabs/wazero/verif/wb"
 )
 
 const tickTerm = 7000
+
+// histSettle: how long the module is polled (and required to stay open) after the context of a call that has
+// already ended was cancelled / expired. A "nothing happens" oracle: a stale watcher acts within microseconds.
+const histSettle = 300 * time.Millisecond
+
+var (
+	histEHow = []string{"unreachable", "oob", "divzero", "hostpanic", "swallowed", "overflow"}
+	histECtx = []string{"cancel-after", "deadline-after", "child-after"}
+	// what follows an E step in quick: a terminating call, and a cycle stopped by its own cancel / deadline
+	histEFollowQuick = []string{"T:bg:plain", "N:cancel-during:plain", "N:deadline:snap"}
+	histEMode        = map[string]uint64{"unreachable": 2, "oob": 3, "divzero": 4, "hostpanic": 5, "swallowed": 6, "overflow": 7}
+)
+
+var errHostBoom = errors.New("c07: host function panics")
+
+// histNotApplicable: exhausting the compiler's 400 MB call stack takes about a second, longer than the deadline
+// of a deadline-after step, which would then legitimately expire during the call.
+func histNotApplicable(engine, seq string) bool {
+	return engine == "compiler" && strings.Contains(seq, "E-overflow:deadline-after")
+}
 
 var (
 	histTCtx  = []string{"bg", "cancel-before-next", "cancel-during-next", "child-before-next", "child-during-next"}
@@ -42,12 +71,25 @@ var (
 )
 
 func histShape() shape {
-	x := newGuest(nil)
+	var boom, swallow uint32
+	x := newGuest(func(m *wb.Module) {
+		boom = m.ImportFunc("env", "boom", nil, nil)
+		swallow = m.ImportFunc("env", "swallow", nil, nil)
+	})
+	x.m.Mem = &wb.Limits{Min: 1}
+	self := x.base
+	mode := func(s *wb.Asm, v int32) *wb.Asm { return s.LocalGet(0).I32Const(v).Op(0x46).If(wb.Void) }
 	body := a().LocalGet(0).Op(0x45).If(wb.Void).I32Const(tickTerm).Call(x.tick).Return().End()
+	body = mode(body, 2).Unreachable().End()
+	body = mode(body, 3).I32Const(65536).Mem(0x28, 2, 0).Drop().End()
+	body = mode(body, 4).I32Const(1).I32Const(0).Op(0x6d).Drop().End()
+	body = mode(body, 5).Call(boom).Return().End()
+	body = mode(body, 6).Call(swallow).Return().End()
+	body = mode(body, 7).I32Const(7).Call(self).Return().End()
 	body = x.P(body.Loop(wb.Void)).Br(0).End()
 	x.m.ExportFunc("f", x.m.AddFunc([]byte{wb.I32}, nil, nil, body.B))
 	return shape{ID: "F-one-function-two-modes", Family: "hist", Class: classLoop, Cycle: "call-history/loop-br", Mods: one("a", x), Entry: "f",
-		Desc: "f(mode) { if mode==0 { tick; return }; loop { P; br 0 } }, one api.Function object called repeatedly"}
+		Desc: "f(mode) { 0: tick, return | 2: unreachable | 3: load out of bounds | 4: 1/0 | 5: host panics | 6: host calls f(2), swallows the trap | 7: f(7) | else: loop { P; br 0 } }, one api.Function object called repeatedly"}
 }
 
 func histSteps(kind string, ctxs []string) []string {
@@ -72,6 +114,18 @@ func histSequences(thorough bool) []string {
 		}
 		for _, t2 := range T {
 			out = append(out, t+","+t2)
+		}
+	}
+	// E steps: every way to end without closing the module x context x decoration, followed by one more call
+	follow := histEFollowQuick
+	if thorough {
+		follow = append(append([]string{}, T...), N...)
+	}
+	for _, how := range histEHow {
+		for _, e := range histSteps("E-"+how, histECtx) {
+			for _, f := range follow {
+				out = append(out, e+","+f)
+			}
 		}
 	}
 	T3 := Tsmall
@@ -170,6 +224,14 @@ func runHistCase(idx int, spec caseSpec, sh *shape) string {
 	defer rt.Close(bg)
 	hb := rt.NewHostModuleBuilder("env")
 	hb.NewFunctionBuilder().WithGoModuleFunction(api.GoModuleFunc(r.tick), []api.ValueType{api.ValueTypeI32}, nil).Export("tick")
+	var swallowedErr error
+	hb.NewFunctionBuilder().WithGoModuleFunction(api.GoModuleFunc(func(context.Context, api.Module, []uint64) {
+		panic(errHostBoom)
+	}), nil, nil).Export("boom")
+	hb.NewFunctionBuilder().WithGoModuleFunction(api.GoModuleFunc(func(ctx context.Context, m api.Module, _ []uint64) {
+		// nested call on the same context through a fresh api.Function; it traps; the error is swallowed
+		_, swallowedErr = m.ExportedFunction("f").Call(ctx, 2)
+	}), nil, nil).Export("swallow")
 	if _, err := hb.Instantiate(bg); err != nil {
 		return "harness|env: " + err.Error()
 	}
@@ -200,15 +262,15 @@ func runHistCase(idx int, spec caseSpec, sh *shape) string {
 		switch ck {
 		case "bg":
 			ctx = bg
-		case "cancel-before-next", "cancel-during-next", "cancel-before", "cancel-during":
+		case "cancel-before-next", "cancel-during-next", "cancel-before", "cancel-during", "cancel-after":
 			ctx, own = context.WithCancel(bg)
-		case "child-before-next", "child-during-next", "child-during":
+		case "child-before-next", "child-during-next", "child-during", "child-after":
 			var parent context.Context
 			var c2 context.CancelFunc
 			parent, own = context.WithCancel(bg)
 			ctx, c2 = context.WithCancel(parent)
 			cleanup = append(cleanup, c2)
-		case "deadline":
+		case "deadline", "deadline-after":
 			var c context.CancelFunc
 			ctx, c = context.WithDeadline(bg, time.Now().Add(deadlineAhead))
 			cleanup = append(cleanup, c)
@@ -220,6 +282,36 @@ func runHistCase(idx int, spec caseSpec, sh *shape) string {
 		}
 		if deco == "snap" {
 			ctx = experimental.WithSnapshotter(ctx)
+		}
+		if how, ok := strings.CutPrefix(kind, "E-"); ok {
+			swallowedErr = nil
+			_, err := fn.Call(ctx, histEMode[how])
+			var ee *sys.ExitError
+			switch {
+			case errors.As(err, &ee) || mod.IsClosed():
+				return fmt.Sprintf("bad:call-ending-by-%s-closed-the-module|call %d (%s) ended with %v, IsClosed=%v", how, j+1, st, err, mod.IsClosed())
+			case how == "swallowed" && (err != nil || swallowedErr == nil):
+				return fmt.Sprintf("harness|swallowed step: outer err=%v inner err=%v", err, swallowedErr)
+			case how != "swallowed" && err == nil:
+				return fmt.Sprintf("harness|step %s returned without error", st)
+			}
+			// now the context of the call that has ended becomes done ...
+			switch ck {
+			case "cancel-after", "child-after":
+				own()
+			case "deadline-after":
+				if dl, _ := ctx.Deadline(); time.Until(dl) > 0 {
+					time.Sleep(time.Until(dl) + 2*time.Millisecond)
+				}
+				<-ctx.Done()
+			}
+			// ... and nothing may happen to the module
+			for lim := time.Now().Add(histSettle); time.Now().Before(lim); time.Sleep(5 * time.Millisecond) {
+				if mod.IsClosed() {
+					return fmt.Sprintf("bad:module-closed-by-a-finished-calls-context|%.0f ms after the context of call %d (%s, ended by %s) became done", time.Since(lim.Add(-histSettle)).Seconds()*1000, j+1, st, how)
+				}
+			}
+			continue
 		}
 		if kind == "T" {
 			_, err := fn.Call(ctx, 0)
